@@ -458,8 +458,46 @@ def _yaml(desc, tandems=False):
         L.append(f"   - [{s + 1}, {e + 1}]")
     L.append("   seq: |-")
     seq = desc["refseq"]
+    ps = desc.get("patch_sites") or []
+    if ps:
+        # the same reference spelled as the shipped VKORC1 / NAT1 databases spell theirs: the written sequence differs from the
+        # reference at the patched sites, and `patches` (1-based position, base) restores it
+        w = list(seq)
+        for i, base in ps:
+            assert base != seq[i]
+            w[i] = base
+        seq = "".join(w)
     L += ["      " + seq[i:i + 80] for i in range(0, len(seq), 80)]
+    if ps:
+        L.append("   patches:")
+        L += [f"   - [{i + 1}, {desc['refseq'][i]}]" for i, _ in ps]
     return "\n".join(L) + "\n"
+
+
+def respell_with_patches(desc, yaml_path, rng, prefer=()):
+    """rewrite the database file with 2-4 reference patches (no change of its meaning): the single-base substitutions of the alleles
+    named in `prefer` come first - the written base is the VARIANT base there, so a loader that loses the patch takes carriers for
+    reference - and a site without any variant comes last; returns the number of patches"""
+    subs = []
+    for a in prefer:
+        for part in a.split("#"):
+            for v in desc["alleles"][part]["variants"]:
+                if len(v[1]) == 3 and v[1][1] == ">" and (v[0], v[1][2]) not in subs and v[0] not in [x[0] for x in subs]:
+                    subs.append((v[0], v[1][2]))
+    subs = subs[:3]
+    used = {v[0] for v in desc["variants"]} | {x[0] for x in subs}
+    free = [i for i in range(len(desc["refseq"])) if all(abs(i - u) > 3 for u in used)]
+    if not free:
+        return 0
+    i = rng.choice(free)
+    subs.append((i, rng.choice([c for c in "ACGT" if c != desc["refseq"][i]])))
+    if len(subs) < 2:
+        j = rng.choice([k for k in free if k != i] or [i])
+        if j != i:
+            subs.insert(0, (j, rng.choice([c for c in "ACGT" if c != desc["refseq"][j]])))
+    desc["patch_sites"] = subs
+    open(yaml_path, "w").write(_yaml(desc))
+    return len(subs)
 
 
 def plant_edge_allele(desc, yaml_path, which, name="82.001", salt=0):
